@@ -54,10 +54,15 @@ def _submit(pool, job, handles, gate=None):
         if job.get('raise'):
             h = pool.apply_async(tasks.t_raise, (tag, 'TaskError', job.get('dur', 0)))
         else:
-            h = pool.apply_async(tasks.t_value, (tag, job.get('dur', 0)),
-                                 callback=lambda v, t=tag: log('callback', tag=t))
+            def cb(v, t=tag, nap=job.get('cb_sleep', 0)):
+                log('callback', tag=t)
+                if nap:
+                    time.sleep(nap)       # a slow (legitimate) result callback
+            h = pool.apply_async(tasks.t_value, (tag, job.get('dur', 0)), callback=cb)
     else:
-        items = [['%s.%d' % (tag, i), job.get('dur', 0)] for i in range(job['n'])]
+        durs = job.get('durs')
+        items = [['%s.%d' % (tag, i), durs[i] if durs else job.get('dur', 0)]
+                 for i in range(job['n'])]
         if k == 'map':
             h = pool.starmap_async(tasks.t_value, items, job.get('chunk'))
         elif k == 'imap':
